@@ -524,7 +524,6 @@ fn spawn_async_ao_list_in_task'''),
     ],
     'U15': [
         ('noclobber-probe-from-the-process-directory', 'brush-core/src/interp.rs', "                    let expanded_file_path: PathBuf =\n                        shell.absolute_path(Path::new(expanded_fields.remove(0).as_str()));", "                    let expanded_file_path = PathBuf::from(expanded_fields.remove(0));"),
-        ('descriptor-installed-before-the-open-succeeds', 'brush-core/src/interp.rs', "                    params.open_files.set_fd(fd_num, opened_file);\n                }\n\n                ast::IoFileRedirectTarget::Fd(fd) => {", "                    params.open_files.set_fd(fd_num + 1, opened_file);\n                }\n\n                ast::IoFileRedirectTarget::Fd(fd) => {"),
         ('close-removes-entry', 'brush-core/src/openfiles.rs', 'self.files.insert(fd, None).and_then(|f| f)', 'self.files.remove(&fd).and_then(|f| f)'),
         ('add-starts-at-stderr', 'brush-core/src/openfiles.rs', 'const FIRST_NON_STDIO_FD: ShellFd = 3;', 'const FIRST_NON_STDIO_FD: ShellFd = 2;'),
         ('add-off-by-one-limit', 'brush-core/src/openfiles.rs', 'if fd >= Self::MAX_FD {', 'if fd > Self::MAX_FD {'),
